@@ -39,6 +39,14 @@ theorem lookup_none_of_not_mem {α : Type} (n : Name) (l : List (Name × α)) (h
   | none => rfl
   | some a => exact absurd (lookup_isSome_mem n l (by simp [hl])) h
 
+theorem flatMap_congr' {α β : Type} {l : List α} {f g : α → List β} (h : ∀ a ∈ l, f a = g a) :
+    l.flatMap f = l.flatMap g := by
+  induction l with
+  | nil => rfl
+  | cons a as ih =>
+    simp only [List.flatMap_cons]
+    rw [h a (by simp), ih (fun x hx => h x (by simp [hx]))]
+
 theorem flatMap_replicate_null {α : Type} (l : List α) (len : α → Nat) :
     l.flatMap (fun x => List.replicate (len x) Cell.null) = List.replicate ((l.map len).sum) Cell.null := by
   induction l with
@@ -52,6 +60,46 @@ def PartOk (p : Part) : Prop := ∀ n cs, lookup n p.cols = some cs → cs.lengt
 
 /-- lengths of a re-encoding input are consistent -/
 def LenOk (xs : ReencIn) : Prop := ∀ x ∈ xs, ∀ cs, x.2 = some cs → cs.length = x.1
+
+/-- all cells offered to a column re-encoding are NULLs or values of one basic type -/
+def XsTyped (xs : ReencIn) : Prop := ∃ k, TypedK k ∧ ∀ x ∈ xs, ∀ cs, x.2 = some cs → Uniform k cs
+
+/-- the re-encoding is the identity on cells for consistent, single-typed inputs -/
+def ReId (re : Reenc) : Prop := ∀ xs, LenOk xs → XsTyped xs → re xs = idReenc xs
+
+theorem reId_idReenc : ReId idReenc := fun _ _ _ => rfl
+
+def BatchTyped (ty : Name → Kind) (b : Batch) : Prop := ∀ n cs, lookup n b.cols = some cs → Uniform (ty n) cs
+def PartTyped (ty : Name → Kind) (p : Part) : Prop := ∀ n cs, lookup n p.cols = some cs → Uniform (ty n) cs
+
+/-- every stored column is single-typed, of the type the schema `ty` gives to its name -/
+structure TTyped (ty : Name → Kind) (t : Table) : Prop where
+  kinds : ∀ n, TypedK (ty n)
+  partsT : ∀ p ∈ t.parts, PartTyped ty p
+  bufT : ∀ b ∈ t.buffer, BatchTyped ty b
+
+theorem uniform_append {k : Kind} {a b : List Cell} (ha : Uniform k a) (hb : Uniform k b) : Uniform k (a ++ b) := by
+  intro c hc
+  cases List.mem_append.mp hc with
+  | inl h => exact ha c h
+  | inr h => exact hb c h
+
+theorem uniform_nulls (k : Kind) (n : Nat) : Uniform k (List.replicate n .null) := by
+  intro c hc
+  rw [List.mem_replicate] at hc
+  rw [hc.2]; exact Or.inl rfl
+
+theorem uniform_flatMap {α : Type} {k : Kind} (l : List α) (f : α → List Cell) (h : ∀ a ∈ l, Uniform k (f a)) :
+    Uniform k (l.flatMap f) := by
+  intro c hc
+  obtain ⟨a, ha, hca⟩ := List.mem_flatMap.mp hc
+  exact h a ha c hca
+
+theorem uniform_orNulls {k : Kind} (len : Nat) (o : Option (List Cell)) (h : ∀ cs, o = some cs → Uniform k cs) :
+    Uniform k (orNulls len o) := by
+  cases o with
+  | none => exact uniform_nulls k len
+  | some cs => exact h cs rfl
 
 structure TWF (t : Table) : Prop where
   frozenEmpty : t.frozen = []
@@ -118,7 +166,7 @@ theorem batchesCol_absent (bs : List Batch) (n : Name) (h : n ∉ batchesNames b
     simp [batchCol, orNulls, lookup_none_of_not_mem n b.cols this]
   unfold batchesCol batchesLen
   rw [← flatMap_replicate_null bs (·.len)]
-  exact List.flatMap_congr this
+  exact flatMap_congr' this
 
 /-- the partition made by `batch` reads, for EVERY column name, as the frozen buffer did -/
 theorem partCol_batch (frozen : List Batch) (id off : Nat) (n : Name) :
@@ -131,40 +179,55 @@ theorem partCol_batch (frozen : List Batch) (id off : Nat) (n : Name) :
 
 /-! ### compaction with the identity re-encoding -/
 
-theorem rebuildCols_id (re : Reenc) (olds : List Part) (hre : ∀ xs, LenOk xs → re xs = idReenc xs)
-    (hok : ∀ p ∈ olds, PartOk p) (names : List Name) :
+theorem rebuildCols_id (re : Reenc) (olds : List Part) (names : List Name)
+    (hre : ∀ n ∈ names, re (olds.map fun p => (p.len, lookup n p.cols)) = idReenc (olds.map fun p => (p.len, lookup n p.cols))) :
     rebuildCols re olds names = .ok (names.map fun n => (n, olds.flatMap (partCol · n))) := by
-  have hin : ∀ n, LenOk (olds.map fun p => (p.len, lookup n p.cols)) := by
-    intro n x hx cs hcs
-    obtain ⟨p, hp, rfl⟩ := List.mem_map.mp hx
-    exact hok p hp n cs hcs
   induction names with
   | nil => rfl
   | cons n ns ih =>
-    simp only [rebuildCols, hre _ (hin n), idReenc, ih, List.map_cons]
+    simp only [rebuildCols, hre n (by simp), idReenc, ih (fun m hm => hre m (by simp [hm])), List.map_cons]
     simp [List.flatMap_map, partCol]
+
+theorem reencIn_ok (ty : Name → Kind) (olds : List Part) (hok : ∀ p ∈ olds, PartOk p) (hty : ∀ p ∈ olds, PartTyped ty p)
+    (hk : ∀ n, TypedK (ty n)) (n : Name) :
+    LenOk (olds.map fun p => (p.len, lookup n p.cols)) ∧ XsTyped (olds.map fun p => (p.len, lookup n p.cols)) := by
+  constructor
+  · intro x hx cs hcs
+    obtain ⟨p, hp, rfl⟩ := List.mem_map.mp hx
+    exact hok p hp n cs hcs
+  · refine ⟨ty n, hk n, ?_⟩
+    intro x hx cs hcs
+    obtain ⟨p, hp, rfl⟩ := List.mem_map.mp hx
+    exact hty p hp n cs hcs
 
 theorem sum_take_drop (l : List Nat) (k : Nat) : (l.take k).sum + (l.drop k).sum = l.sum := by
   rw [← List.sum_append, List.take_append_drop]
 
 /-- `C07_compact_preserves`, core: merging the last `k` partitions leaves every column's content unchanged,
     columns absent from a partition contributing NULLs; also for names outside `colNames` (never stored). -/
-theorem compact_content (re : Reenc) (hre : ∀ xs, LenOk xs → re xs = idReenc xs) (t : Table) (hwf : TWF t) (k : Nat) :
-    ∃ t', compact re t k = .ok t' ∧ TWF t' ∧ (∀ n, content t' n = content t n) ∧ t'.nextOff = t.nextOff ∧
-      t'.buffer = t.buffer := by
+theorem compact_content (re : Reenc) (hre : ReId re) (ty : Name → Kind) (t : Table) (hwf : TWF t) (hty : TTyped ty t)
+    (k : Nat) :
+    ∃ t', compact re t k = .ok t' ∧ TWF t' ∧ TTyped ty t' ∧ (∀ n, content t' n = content t n) ∧
+      t'.nextOff = t.nextOff ∧ t'.buffer = t.buffer := by
   unfold compact
   split
-  · exact ⟨t, rfl, hwf, fun _ => rfl, rfl, rfl⟩
+  · exact ⟨t, rfl, hwf, hty, fun _ => rfl, rfl, rfl⟩
   · rename_i hk
     have hk' : 0 < k ∧ k ≤ t.parts.length := by omega
     cases holds : t.parts.drop (t.parts.length - k) with
-    | nil => exact ⟨t, by simp, hwf, fun _ => rfl, rfl, rfl⟩
+    | nil => exact ⟨t, by simp, hwf, hty, fun _ => rfl, rfl, rfl⟩
     | cons first olds' =>
       have hmem : ∀ p ∈ first :: olds', p ∈ t.parts := by
         intro p hp; rw [← holds] at hp; exact List.mem_of_mem_drop hp
       have hokp : ∀ p ∈ first :: olds', PartOk p := fun p hp => hwf.partsOk p (hmem p hp)
-      simp only [rebuildCols_id re (first :: olds') hre hokp]
-      refine ⟨_, rfl, ?_, ?_, rfl, rfl⟩
+      have htyp : ∀ p ∈ first :: olds', PartTyped ty p := fun p hp => hty.partsT p (hmem p hp)
+      have hreN : ∀ n ∈ t.colNames, re ((first :: olds').map fun p => (p.len, lookup n p.cols))
+          = idReenc ((first :: olds').map fun p => (p.len, lookup n p.cols)) := by
+        intro n _
+        obtain ⟨h1, h2⟩ := reencIn_ok ty (first :: olds') hokp htyp hty.kinds n
+        exact hre _ h1 h2
+      simp only [rebuildCols_id re (first :: olds') t.colNames hreN]
+      refine ⟨_, rfl, ?_, ?_, ?_, rfl, rfl⟩
       · refine ⟨hwf.frozenEmpty, hwf.bufOk, ?_, ?_, hwf.namesBuf⟩
         · intro p hp
           simp only [List.mem_append, List.mem_singleton] at hp
@@ -202,6 +265,21 @@ theorem compact_content (re : Reenc) (hre : ∀ xs, LenOk xs → re xs = idReenc
             split at hn
             · assumption
             · cases hn
+      · refine ⟨hty.kinds, ?_, hty.bufT⟩
+        intro p hp
+        simp only [List.mem_append, List.mem_singleton] at hp
+        cases hp with
+        | inl h => exact hty.partsT p (List.mem_of_mem_take h)
+        | inr h =>
+          subst h
+          intro n cs hl
+          simp only [lookup_map] at hl
+          split at hl
+          · cases hl
+            apply uniform_flatMap
+            intro q hq
+            exact uniform_orNulls q.len _ (fun cs hcs => htyp q hq n cs hcs)
+          · cases hl
       · intro n
         simp only [content, List.flatMap_append, List.flatMap_cons, List.flatMap_nil, List.append_nil]
         congr 2
@@ -222,6 +300,226 @@ theorem compact_content (re : Reenc) (hre : ∀ xs, LenOk xs → re xs = idReenc
             | some cs => exact absurd (hwf.namesParts p (hmem p hp) n (by simp [hl])) hn
           simp only [orNulls]
           rw [← flatMap_replicate_null (first :: olds') (·.len)]
-          exact (List.flatMap_congr this).symm
+          exact (flatMap_congr' this).symm
+
+/-! ### the other steps -/
+
+theorem lookup_isSome_of_mem {α : Type} (n : Name) (l : List (Name × α)) (h : n ∈ l.map (·.1)) :
+    (lookup n l).isSome = true := by
+  induction l with
+  | nil => simp at h
+  | cons x xs ih =>
+    obtain ⟨m, a⟩ := x
+    simp only [lookup]
+    by_cases hm : m = n
+    · simp [hm]
+    · simp only [hm, if_false]
+      apply ih
+      simp only [List.map_cons, List.mem_cons] at h
+      cases h with
+      | inl e => exact absurd e.symm hm
+      | inr h' => exact h'
+
+theorem ingest_twf (t : Table) (hwf : TWF t) (b : Batch) (hb : BatchOk b) : TWF (ingest t b) := by
+  refine ⟨hwf.frozenEmpty, ?_, hwf.partsOk, ?_, ?_⟩
+  · intro x hx
+    simp only [ingest, List.mem_append, List.mem_singleton] at hx
+    cases hx with
+    | inl h => exact hwf.bufOk x h
+    | inr h => subst h; exact hb
+  · intro p hp n hn
+    exact mem_addNames_left _ _ _ (hwf.namesParts p hp n hn)
+  · intro x hx n hn
+    simp only [ingest, List.mem_append, List.mem_singleton] at hx
+    cases hx with
+    | inl h => exact mem_addNames_left _ _ _ (hwf.namesBuf x h n hn)
+    | inr h => subst h; exact mem_addNames_right _ _ _ (lookup_isSome_mem n _ hn)
+
+theorem ingest_content (t : Table) (b : Batch) (n : Name) :
+    content (ingest t b) n = content t n ++ batchCol b n := by
+  simp [content, ingest, batchesCol, List.flatMap_append]
+
+theorem ingest_typed (ty : Name → Kind) (t : Table) (hty : TTyped ty t) (b : Batch) (hb : BatchTyped ty b) :
+    TTyped ty (ingest t b) := by
+  refine ⟨hty.kinds, hty.partsT, ?_⟩
+  intro x hx
+  simp only [ingest, List.mem_append, List.mem_singleton] at hx
+  cases hx with
+  | inl h => exact hty.bufT x h
+  | inr h => subst h; exact hb
+
+theorem batchesCol_uniform (ty : Name → Kind) (bs : List Batch) (h : ∀ b ∈ bs, BatchTyped ty b) (n : Name) :
+    Uniform (ty n) (batchesCol bs n) := by
+  apply uniform_flatMap
+  intro b hb
+  exact uniform_orNulls b.len _ (fun cs hcs => h b hb n cs hcs)
+
+theorem batchesCol_nil_of_len (bs : List Batch) (h : ∀ b ∈ bs, BatchOk b) (h0 : batchesLen bs = 0) (n : Name) :
+    batchesCol bs n = [] := by
+  have := batchesCol_length bs h n
+  rw [h0] at this
+  exact List.eq_nil_of_length_eq_zero this
+
+/-- freeze + batch: the buffered rows become a partition (or nothing happens when the buffer is empty) -/
+theorem freeze_batch_content (ty : Name → Kind) (t : Table) (hwf : TWF t) (hty : TTyped ty t) :
+    ∃ t1, freeze t = .ok t1 ∧ TWF (batch t1) ∧ TTyped ty (batch t1) ∧ (∀ n, content (batch t1) n = content t n) ∧
+      (batch t1).buffer = [] := by
+  have hf : batchesLen t.frozen = 0 := by rw [hwf.frozenEmpty]; rfl
+  refine ⟨{ t with frozen := t.buffer, buffer := [] }, by simp [freeze, hf], ?_, ?_, ?_, ?_⟩
+  · unfold batch
+    split
+    · exact ⟨rfl, by simp, hwf.partsOk, hwf.namesParts, by simp⟩
+    · refine ⟨rfl, by simp, ?_, ?_, by simp⟩
+      · intro p hp
+        simp only [List.mem_append, List.mem_singleton] at hp
+        cases hp with
+        | inl h => exact hwf.partsOk p h
+        | inr h =>
+          subst h
+          intro n cs hl
+          simp only [lookup_map] at hl
+          split at hl
+          · cases hl; exact batchesCol_length t.buffer hwf.bufOk n
+          · cases hl
+      · intro p hp n hn
+        simp only [List.mem_append, List.mem_singleton] at hp
+        cases hp with
+        | inl h => exact hwf.namesParts p h n hn
+        | inr h =>
+          subst h
+          simp only [lookup_map] at hn
+          split at hn
+          · rename_i hmem
+            simp only [batchesNames, List.mem_flatMap] at hmem
+            obtain ⟨b, hb, hnb⟩ := hmem
+            exact hwf.namesBuf b hb n (lookup_isSome_of_mem n b.cols hnb)
+          · cases hn
+  · unfold batch
+    split
+    · exact ⟨hty.kinds, hty.partsT, by simp⟩
+    · refine ⟨hty.kinds, ?_, by simp⟩
+      intro p hp
+      simp only [List.mem_append, List.mem_singleton] at hp
+      cases hp with
+      | inl h => exact hty.partsT p h
+      | inr h =>
+        subst h
+        intro n cs hl
+        simp only [lookup_map] at hl
+        split at hl
+        · cases hl; exact batchesCol_uniform ty t.buffer hty.bufT n
+        · cases hl
+  · intro n
+    unfold batch
+    split
+    · rename_i h0
+      simp only [content, hwf.frozenEmpty, batchesCol, List.flatMap_nil, List.append_nil]
+      have := batchesCol_nil_of_len t.buffer hwf.bufOk h0 n
+      simp only [batchesCol] at this
+      simp [this]
+    · simp only [content, hwf.frozenEmpty, batchesCol, List.flatMap_nil, List.append_nil,
+        List.flatMap_append, List.flatMap_cons]
+      have := partCol_batch t.buffer t.nextId t.nextOff n
+      simp only [batchesCol] at this
+      rw [this]
+  · unfold batch
+    split <;> rfl
+
+theorem flush_content (re : Reenc) (hre : ReId re) (ty : Name → Kind) (t : Table) (hwf : TWF t) (hty : TTyped ty t)
+    (k : Nat) :
+    ∃ t', flush re t k = .ok t' ∧ TWF t' ∧ TTyped ty t' ∧ (∀ n, content t' n = content t n) := by
+  obtain ⟨t1, h1, h2, h2t, h3, _⟩ := freeze_batch_content ty t hwf hty
+  obtain ⟨t', g1, g2, g2t, g3, _, _⟩ := compact_content re hre ty (batch t1) h2 h2t k
+  exact ⟨t', by simp [flush, h1, g1], g2, g2t, fun n => by rw [g3, h3]⟩
+
+theorem nonresident_typed (ty : Name → Kind) (ps : List Part) (h : ∀ p ∈ ps, PartTyped ty p) :
+    ∀ p ∈ ps.map (fun p => { p with resident := false }), PartTyped ty p := by
+  intro p hp
+  obtain ⟨q, hq, rfl⟩ := List.mem_map.mp hp
+  exact h q hq
+
+theorem evict_typed (ty : Name → Kind) (t : Table) (hty : TTyped ty t) : TTyped ty (evict t) :=
+  ⟨hty.kinds, nonresident_typed ty t.parts hty.partsT, hty.bufT⟩
+
+theorem restart_typed (ty : Name → Kind) (t : Table) (hwf : TWF t) (hty : TTyped ty t) : TTyped ty (restart t) := by
+  refine ⟨hty.kinds, nonresident_typed ty t.parts hty.partsT, ?_⟩
+  have hb : (restart t).buffer = t.buffer := by simp [restart, hwf.frozenEmpty]
+  rw [hb]; exact hty.bufT
+
+theorem evict_twf (t : Table) (hwf : TWF t) : TWF (evict t) := by
+  refine ⟨hwf.frozenEmpty, hwf.bufOk, ?_, ?_, hwf.namesBuf⟩
+  · intro p hp
+    simp only [evict, List.mem_map] at hp
+    obtain ⟨q, hq, rfl⟩ := hp
+    exact hwf.partsOk q hq
+  · intro p hp
+    simp only [evict, List.mem_map] at hp
+    obtain ⟨q, hq, rfl⟩ := hp
+    exact hwf.namesParts q hq
+
+theorem parts_nonresident_content (ps : List Part) (n : Name) :
+    (ps.map fun p => { p with resident := false }).flatMap (partCol · n) = ps.flatMap (partCol · n) := by
+  induction ps with
+  | nil => rfl
+  | cons p ps ih => simp only [List.map_cons, List.flatMap_cons, ih]; rfl
+
+theorem evict_content (t : Table) (n : Name) : content (evict t) n = content t n := by
+  simp only [content, evict, parts_nonresident_content]
+
+theorem restart_twf (t : Table) (hwf : TWF t) : TWF (restart t) := by
+  have hb : (restart t).buffer = t.buffer := by simp [restart, hwf.frozenEmpty]
+  refine ⟨rfl, by rw [hb]; exact hwf.bufOk, ?_, ?_, by rw [hb]; exact hwf.namesBuf⟩
+  · intro p hp
+    simp only [restart, List.mem_map] at hp
+    obtain ⟨q, hq, rfl⟩ := hp
+    exact hwf.partsOk q hq
+  · intro p hp
+    simp only [restart, List.mem_map] at hp
+    obtain ⟨q, hq, rfl⟩ := hp
+    exact hwf.namesParts q hq
+
+theorem restart_content (t : Table) (hwf : TWF t) (n : Name) : content (restart t) n = content t n := by
+  simp only [content, restart, parts_nonresident_content, hwf.frozenEmpty, batchesCol, List.nil_append,
+    List.flatMap_nil, List.append_nil]
+
+/-- the batches of a history are well formed: every supplied column has one cell per row and holds NULLs and values
+    of the type the schema gives to its name -/
+def StepOk (ty : Name → Kind) : Step → Prop
+  | .ingest b => BatchOk b ∧ BatchTyped ty b
+  | _ => True
+
+theorem step_content (re : Reenc) (hre : ReId re) (ty : Name → Kind) (t : Table) (hwf : TWF t) (hty : TTyped ty t)
+    (s : Step) (hs : StepOk ty s) :
+    ∃ t', step re t s = .ok t' ∧ TWF t' ∧ TTyped ty t' ∧
+      ∀ n, content t' n = content t n ++ batchesCol (ingested [s]) n := by
+  cases s with
+  | ingest b =>
+    refine ⟨ingest t b, rfl, ingest_twf t hwf b hs.1, ingest_typed ty t hty b hs.2, fun n => ?_⟩
+    simp [ingest_content, ingested, batchesCol]
+  | flush k =>
+    obtain ⟨t', h1, h2, h2t, h3⟩ := flush_content re hre ty t hwf hty k
+    exact ⟨t', h1, h2, h2t, fun n => by simp [h3, ingested, batchesCol]⟩
+  | evict =>
+    exact ⟨evict t, rfl, evict_twf t hwf, evict_typed ty t hty, fun n => by simp [evict_content, ingested, batchesCol]⟩
+  | restart =>
+    exact ⟨restart t, rfl, restart_twf t hwf, restart_typed ty t hwf hty,
+      fun n => by simp [restart_content t hwf, ingested, batchesCol]⟩
+
+theorem ingested_cons (s : Step) (ss : List Step) : ingested (s :: ss) = ingested [s] ++ ingested ss := by
+  cases s <;> simp [ingested]
+
+theorem run_content (re : Reenc) (hre : ReId re) (ty : Name → Kind) (steps : List Step) :
+    ∀ (t : Table), TWF t → TTyped ty t → (∀ s ∈ steps, StepOk ty s) →
+    ∃ t', run re t steps = .ok t' ∧ TWF t' ∧ TTyped ty t' ∧
+      ∀ n, content t' n = content t n ++ batchesCol (ingested steps) n := by
+  induction steps with
+  | nil => intro t hwf hty _; exact ⟨t, rfl, hwf, hty, fun n => by simp [ingested, batchesCol]⟩
+  | cons s ss ih =>
+    intro t hwf hty hs
+    obtain ⟨t1, h1, h2, h2t, h3⟩ := step_content re hre ty t hwf hty s (hs s (by simp))
+    obtain ⟨t', g1, g2, g2t, g3⟩ := ih t1 h2 h2t (fun x hx => hs x (by simp [hx]))
+    refine ⟨t', by simp [run, h1, g1], g2, g2t, fun n => ?_⟩
+    rw [g3, h3, ingested_cons s ss]
+    simp [batchesCol, List.flatMap_append]
 
 end LM.C07M
